@@ -196,6 +196,23 @@ def _hist_worker(cfg):
                             break
                     if d_co is None and len(model['steps']) != len(impl['steps']):
                         d_co = 'number of processed packets %d vs %d' % (len(model['steps']), len(impl['steps']))
+            # ---- the model's nested-update encoder (C06.nested_encode_apply is about its bytes) against
+            #      the bytes this history actually carried, and its executed round trip against the tracker
+            if d_co is None and cfg.get('check_encoder'):
+                encs = [m['enc'] for _, _, m in h.packets if m.get('kind') == 'nested' and m.get('enc')]
+                if encs:
+                    reps = drv.run([{'op': 'nested.encode', 'ty': e['ty'], 'val': e['val'], 'nprops': e['nprops'], 'pi': e['pi'],
+                                     'path': e['path'], 'leaf': e['leaf']} for e in encs])
+                    out['stats']['model-encoder:ops'] = out['stats'].get('model-encoder:ops', 0) + len(encs)
+                    for e, r in zip(encs, reps):
+                        kk = 'model-encoder:%s:depth%d' % (e['leaf']['k'], len(e['path']))
+                        out['stats'][kk] = out['stats'].get(kk, 0) + 1
+                        if r.get('ok') != e['body']:
+                            d_co = 'nested encoder: model %s vs harness %s for %s' % (json.dumps(r)[:200], e['body'][:200], json.dumps({k: e[k] for k in ('pi', 'path', 'leaf')})[:300])
+                            break
+                        if iplay.canon_generic(r.get('after')) != iplay.canon_generic(e['after']):
+                            d_co = 'nested round trip in the model: %s vs list/dict operation %s' % (json.dumps(r.get('after'))[:200], json.dumps(e['after'])[:200])
+                            break
             if d_or or d_co:
                 packets = h.packets
                 if d_co and model is not None:
@@ -353,6 +370,8 @@ def run_batches(chk, cfgs, label, what_violation, nontrivial=lambda case: True):
             chk.dist('%s:packets' % label, case['packets'])
             for k, n in case['kinds'].items():
                 chk.dist('%s:kind:%s' % (label, k), n)
+        for k, n in (r.get('stats') or {}).items():
+            chk.dist('%s:%s' % (label, k), n)
         if r.get('sample') and len(chk.cov['samples']) < 3:
             chk.cov['samples'].append(r['sample'])
         bad_keys = set()
